@@ -933,6 +933,7 @@ func (m *Monitors) AtEnd() {
 	}
 	m.timedEnd()
 	m.restoreEnd()
+	m.restoreInflight()
 	// C10: NewRaft must return
 	if w.endWhy == "quiescent" {
 		for _, n := range w.nodes {
